@@ -292,3 +292,44 @@ func ScribbleMessage(m *nas.Message) {
 		}
 	}
 }
+
+// SliceGetters: the bound read accessors (methods Get*, no argument, one []uint8 result) of every element present in the
+// first body of m.  What such an accessor returns is the caller's own value; looked up once, before goroutines start.
+func SliceGetters(m *nas.Message) []reflect.Value {
+	var out []reflect.Value
+	fam, ok := family(m)
+	if !ok {
+		return out
+	}
+	u8s := reflect.TypeOf([]uint8(nil))
+	for i := 0; i < fam.NumField(); i++ {
+		f := fam.Field(i)
+		if f.Kind() != reflect.Ptr || f.IsNil() {
+			continue
+		}
+		body := f.Elem()
+		for j := 0; j < body.NumField(); j++ {
+			bf := body.Field(j)
+			var p reflect.Value
+			if bf.Kind() == reflect.Ptr {
+				if bf.IsNil() {
+					continue
+				}
+				p = bf
+			} else if bf.CanAddr() {
+				p = bf.Addr()
+			} else {
+				continue
+			}
+			t := p.Type()
+			for k := 0; k < t.NumMethod(); k++ {
+				mt := t.Method(k)
+				if len(mt.Name) > 3 && mt.Name[:3] == "Get" && mt.Type.NumIn() == 1 && mt.Type.NumOut() == 1 && mt.Type.Out(0) == u8s {
+					out = append(out, p.Method(k))
+				}
+			}
+		}
+		break
+	}
+	return out
+}
